@@ -161,7 +161,9 @@ CHECKS = {
 }
 
 _GATE = (" All rules run behind the function-normal-form gate (sa/fnf.py): a function whose normal form equals that of its reviewed copy "
-         "under /verif/reference is analysed in the reviewed form, so a refactoring does not disturb the shape rules.")
+         "under /verif/reference is analysed in the reviewed form, so a refactoring does not disturb the shape rules; before the comparison "
+         "sa/recover.py undoes, again by equality of normal forms, functions renamed or moved between modules, methods pulled up into a base "
+         "class, renamed attributes and code extracted into new helper functions.")
 
 # bounded folding (sa/fold.py, sa/objfold.py): the analyser's own evaluator over the syntax trees of small fragments on finite tables of
 # instances with stand-in objects; nothing of cnfgen is imported or run.  Used as a filter on shape-rule alarms (meaning confirmed ->
@@ -180,9 +182,9 @@ _FOLD = {
     "C11": "bounded folding (GROUP-SEMANTICS): every kind of variable group created by folding VariablesManager.new_* through the object model on stand-in formulas / graphs -- fresh consecutive ids in index order, inverse maps for both literal signs, labels, wildcard patterns, rejection of every out-of-domain coordinate; all_variable_labels over group layouts with gaps",
     "C12": "bounded folding (WRITER-SEMANTICS): to_opb_file and _print_latex over CNF and pseudo-Boolean stand-ins, read back by the format's grammar; guess_output_format table",
     "C13": "bounded folding (SAMPLE-SEMANTICS): predicates exhaustively, enumerators against the full enumeration, samplers and generators under scripted random stand-ins of three periods",
-    "C14": "function normal form gate only",
-    "C15": "function normal form gate only",
-    "C16": "bounded folding: Graph.update_vertex_number, BipartiteGraph.from_networkx orientation",
+    "C14": "bounded folding (ROUND-TRIP): the in-house kthlist / dimacs / matrix writers and readers over stand-in graphs and damaged texts; graph classes over update histories (borrowed from C16)",
+    "C15": "bounded folding (EXACT-M): the random graph samplers under scripted random stand-ins; graph classes over update histories (borrowed from C16)",
+    "C16": "bounded folding (HISTORY-SEMANTICS): Graph, DirectedGraph, BipartiteGraph, CompleteBipartiteGraph and their edge views folded through an object model over every update history of <= 2 operations (<= 3 thorough) from an adversarial alphabet plus scripted long histories, every view compared with the set of inserted edges after every operation; Graph.update_vertex_number; BipartiteGraph.from_networkx orientation",
     "C17": "bounded folding: parse_command_line splitting, PHP argument forms exhaustively over 0..3, cnfgen.cli driver over scripted parsers / helpers (order and options of the -T chain), differential folding of every helper against the reviewed copy",
     "C18": "bounded folding: cli drivers of cnfgen / pbgen over scripted helpers (error conversion, prefix scope), error_msg, the writers read back (borrowed)",
     "C19": "bounded folding: add_description / Shuffle provenance entries; differential folding of transformation helpers",
